@@ -157,7 +157,7 @@ def check_case(case: Dict[str, Any], col: Collector, count: bool = True) -> None
 
 
 def plan(tier: str, seed: int, scale: float = 1.0) -> List[Dict[str, Any]]:
-    nshards, n = (48, 250) if tier == "quick" else (320, 250)
+    nshards, n = (64, 250) if tier == "quick" else (320, 250)
     n = max(10, int(n * scale))
     return [{"seed": seed * 10007 + i, "n": n, "timeout": 900} for i in range(nshards)]
 
